@@ -1,18 +1,20 @@
-package tlx
+package tls
 
 import (
 	"encoding/binary"
 	"errors"
 	"fmt"
 	"math"
+	"strings"
 )
 
 // Val is an abstract TL value of one constructor: Fields[i] belongs to Def.Params[i].
-//   '#'            -> nil (computed when encoding, checked when decoding)
-//   absent optional-> nil
-//   int  int32 | long int64 | double float64 | string,bytes []byte | Bool bool | true bool(true)
-//   int128,int256 []byte (16/32, big-endian as the repository's MTProto objects use them)
-//   vector []any | boxed, bare, Object, !X *Val
+//
+//	'#'            -> nil (computed when encoding, checked when decoding)
+//	absent optional-> nil
+//	int  int32 | long int64 | double float64 | string,bytes []byte | Bool bool | true bool(true)
+//	int128,int256 []byte (16/32, big-endian as the repository's MTProto objects use them)
+//	vector []any | boxed, bare, Object, !X *Val
 type Val struct {
 	Def    *Def
 	Fields []any
@@ -317,7 +319,7 @@ func (s *Schema) decodeType(r *rd, t Type) (any, error) {
 	case "Object", "!X":
 		return s.decodeBoxed(r, "")
 	case "bare":
-		d := s.bareCtor(t.Name)
+		d := s.BareCtor(t.Name)
 		if d == nil {
 			return nil, fmt.Errorf("ref: unknown bare constructor %s", t.Name)
 		}
@@ -326,7 +328,12 @@ func (s *Schema) decodeType(r *rd, t Type) (any, error) {
 	return nil, fmt.Errorf("ref: cannot decode kind %q", t.Kind)
 }
 
-func (s *Schema) bareCtor(name string) *Def {
+func (s *Schema) BareCtor(name string) *Def {
+	for k, d := range s.ByName {
+		if strings.HasSuffix(k, ":"+name) && len(s.ByName) < 200 { // generated schema: single file
+			return d
+		}
+	}
 	for _, f := range []string{"api_latest.tl", "mtproto.tl"} {
 		if d, ok := s.ByName[f+":"+name]; ok {
 			return d
